@@ -319,9 +319,12 @@ func (bs *baseServer) Handshake(transportName string, ctx *types.HttpContext) (*
 
 	transport.On("headers", func(args ...any) {
 		headers, req := args[0].(*utils.ParameterBag), args[1].(*types.HttpContext)
-		if !ctx.Query().Has("sid") {
+		// req is the request being answered, ctx the one of the handshake
+		if !req.Query().Has("sid") {
 			if cookie := bs.opts.Cookie(); cookie != nil {
-				headers.Set("Set-Cookie", cookie.String())
+				sessionCookie := *cookie
+				sessionCookie.Value = id
+				headers.Set("Set-Cookie", sessionCookie.String())
 			}
 			bs.Emit("initial_headers", headers, req)
 		}
